@@ -36,13 +36,13 @@ CLAIMED = {
              text="Exploration by deterministic simulation: expression DAGs built through var::build under several scheduler-chosen linear extensions with builder invariants checked on the shared state after each step, leaked handles as injected fault (Err + state handed back), and forget/forget_monogamous on arbitrary lax terms with variable hyperedges of any arity and label mix; meaning compared with direct evaluation through strict::eval and a reference interpreter. Evidence, not proof.",
              ref="§5 C19"),
  "C12": dict(tech="deterministic simulation: harness-owned functor (second party) applied under seeded device schedules (SimKind); refinement against reference generator-wise substitution up to isomorphism",
-             text="Exploration by deterministic simulation: harness-defined functors (object images of length 0..3, operation images single / composite / spider-only / empty) applied through strict::Functor generic in the device on control, Vec and perturbed schedules, and through the lax trait via dyn_functor; results compared up to isomorphism with substitution on the plain model; functoriality instances and the identity functor. Evidence, not proof.",
+             text="Exploration by deterministic simulation: harness-defined functors (object images of length 0..3, operation images single / composite / spider-only / empty) applied through strict::Functor generic in the device on control, Vec and perturbed schedules, through the lax trait via dyn_functor (also with images and argument that still carry pending unifications) and through the native lax entry points try_define_map_arrow / map_arrow_witness; results compared up to isomorphism with substitution on the plain model; functoriality instances and the identity functor. Evidence, not proof.",
              ref="§5 C12"),
  "C14": dict(tech="deterministic simulation: harness-owned optics under seeded device schedules; oracle = reference lens substitution and re-bending up to isomorphism, and evaluation of adapted reverse-derivative optics against reference reverse accumulation",
              text="Exploration by deterministic simulation: generated optics (forward/reverse object maps, residuals empty/single/multiple) checked against a reference substitution of lens diagrams (typing, composition, tensor, adapt), and the reverse-derivative lenses of polynomial circuits evaluated through strict::eval on (x, dy) against reference reverse-mode differentiation over Z/2^64, strict (all device configurations) and lax (Vec) entry points. Evidence, not proof.",
              ref="§5 C14"),
  "C05": dict(tech="deterministic simulation: pool machine (long random operation sequences on a pool of diagrams under seeded device schedules, deep well-formedness + promised type + refinement against reference twins after every step) and single-datum corruption faults at the checked constructors",
-             text="Exploration by deterministic simulation: the standing invariant of the simulator (deep well-formedness from raw fields and the promised type after every library call) run as its own check on a pool machine of up to 30/40 operations per run under control, Vec and perturbed schedules (compose, tensor, dagger, identities, symmetries, spiders, singleton, operation batches, functor and optic application, round trips; and the same sequence through the lax public API on the Vec device), each result also refined against its plain reference twin and typed as promised (also through the Arrow trait); plus raw parts with at most one datum flipped handed to every checked constructor, which must accept iff the documented condition holds. Evidence, not proof.",
+             text="Exploration by deterministic simulation: the standing invariant of the simulator (deep well-formedness from raw fields and the promised type after every library call) run as its own check on a pool machine of up to 30/40 operations per run under control, Vec and perturbed schedules (compose, tensor, dagger, identities, symmetries, spiders, singleton, operation batches, functor and optic application, round trips; and the same sequence through the lax public API on the Vec device), each result also refined against its plain reference twin and typed as promised (also through the Arrow trait; where an inherent method shadows a trait method both are called); plus raw parts with at most one datum flipped handed to every checked constructor, which must accept iff the documented condition holds. Evidence, not proof.",
              ref="§5 C05"),
  "C06": dict(tech="deterministic simulation: coequalizer under seeded component numberings and universal map under seeded scatter fillers (SimKind), partition equality against a reference union-find; remaining clauses on two devices as control",
              text="Exploration by deterministic simulation: coequalizers must be surjections whose fibres are exactly the generated classes under every component numbering, universal maps must exist, be returned and factor iff the map is constant on fibres (None, not a panic, otherwise) under every scatter filler; the clauses that consume no device choice are evaluated on both devices against functions-as-Vec and reported as control; stress cases (chains, stars, random graphs on 3*10^5..10^6 elements) run in child processes. Evidence, not proof.",
